@@ -857,6 +857,10 @@ func fieldOf(v ssa.Value) (string, string, bool) {
 // results ("*res = v; rundefers; t = *res; return t"): a load of a local whose reaching store is
 // in the same block is replaced by the stored value.
 func retVal(r *ssa.Return, idx int) ssa.Value {
+	if idx < 0 || idx >= len(r.Results) {
+		// a rule asking for a result the function (no longer) has: an opaque value that matches nothing
+		return ssa.NewConst(constant.MakeInt64(-1), types.Typ[types.Int])
+	}
 	return unspill(r.Results[idx])
 }
 
